@@ -71,6 +71,8 @@ pub enum K {
     WriteRetry,
     /// a flush hit by a transient storage fault and repeated by the caller
     FlushRetry,
+    /// the handle replaced by its clone
+    CloneSwap,
 }
 
 #[derive(Clone, Debug)]
@@ -155,6 +157,7 @@ impl GenCfg {
                 (K::SeekTruncate, 5),
                 (K::WriteRetry, 5),
                 (K::FlushRetry, 3),
+                (K::CloneSwap, 3),
             ],
             invalid_names: false,
             rich_names: false,
@@ -397,6 +400,7 @@ pub fn decode_op(gc: &GenCfg, nt: &NameTable, cs: u32, r: &RawOp, mem: &mut Vec<
             Op::Seek { h, whence, off }
         }
         K::Flush => Op::Flush { h },
+        K::CloneSwap => Op::CloneSwap { h },
         K::FlushRetry => Op::FlushRetry { h, k: r.b % 10, interrupted: r.c & 7 == 0 },
         K::CloseFile => Op::CloseFile { h },
         K::CloseDir => Op::CloseDir { d: h },
